@@ -5,6 +5,8 @@
  *   C18 stage "readers": concurrent readers of one shared tree under ThreadSanitizer
  * The allocator (tsafe: libc pass-through, thread-local counters only) is installed once before threads start. */
 #define _GNU_SOURCE
+#include <errno.h>
+#include <fenv.h>
 #include <link.h>
 #include <pthread.h>
 #include <sched.h>
@@ -53,6 +55,9 @@ static void workload(struct tctx* c) {
   struct vh_buf enc = {0}, dump = {0};
   int ctx;
   for (int i = 0; i < c->nops; i++) {
+    /* the concurrent run and the solo run of the same workload differ in ambient thread state (errno, rounding mode):
+     * a digest difference exposes results that depend on it */
+    if (c->record) vh_ambient_scramble((uint64_t)i * 2654435761u + (uint64_t)c->id); else vh_ambient_restore();
     struct gen_cfg cfg = {.max_nodes = 2 + (int)vh_below(&r, 14), .max_depth = 5, .nonminimal = true, .assigned_simple_only = true};
     rnode* t = vh_below(&r, 4) ? gen_tree(&r, &cfg) : gen_systematic(vh_below(&r, nsys_cached));
     cbor_item_t* it = NULL;
@@ -98,6 +103,9 @@ static void workload(struct tctx* c) {
         if (ab) { dg = vh_hash_mix(dg, vh_hash(ab, abn)); _cbor_free(ab); }
       }
       if (vh_below(&r, 4) == 0) {
+        /* the text cbor_describe prints for a float is produced by the C library's printf, whose decimal rounding
+         * legitimately follows the current rounding mode: keep the default mode for this call (errno stays scrambled) */
+        { int saved_errno = errno; fesetround(FE_TONEAREST); errno = saved_errno; }
         STAMP(F_DESCRIBE, cbor_describe(it, df));
         fflush(df);
         dg = vh_hash_mix(dg, vh_hash(dtext, dlen));
@@ -128,6 +136,7 @@ static void workload(struct tctx* c) {
       dg = vh_hash_mix(dg, vh_hash(b, w));
     }
   }
+  vh_ambient_restore();
   fclose(df);
   free(dtext);
   vb_free(&enc); vb_free(&dump);
